@@ -40,13 +40,6 @@ FormatD(f, args) ==
   IF Len(args) # NumPlaceholders(f) THEN [outcome |-> "raise", out |-> <<>>]
   ELSE [outcome |-> "ok", out |-> Splice(Pieces(f), args)]
 
-(* decimal text of an integer *)
-RECURSIVE NatText(_)
-NatText(n) == IF n < 10 THEN <<48 + n>> ELSE NatText(n \div 10) \o <<48 + (n % 10)>>
-IntText(n) == IF n < 0 THEN <<45>> \o NatText(0 - n) ELSE NatText(n)
-HexDigit(d) == IF d < 10 THEN 48 + d ELSE 87 + d
-RECURSIVE HexText(_)
-HexText(n) == IF n < 16 THEN <<HexDigit(n)>> ELSE HexText(n \div 16) \o <<HexDigit(n % 16)>>
 (* items: "s" text, "i" integer, "h" a user type whose operator<< prints its (natural) number in hexadecimal and    *)
 (* leaves the stream in that mode: the integers streamed after it *into the same message* come out hexadecimal too  *)
 ItemText(it, hex) == CASE it.t = "s" -> it.v
